@@ -226,6 +226,23 @@ class CFG:
             self._pdom = self._compute_dom(self.exit, "pred")
         return a.id in self._pdom[b.id]
 
+    def control_deps(self, node: Node, transitive=True) -> List[Tuple[Node, str]]:
+        """tests (and loop heads) on which `node` is control dependent, with the branch label that leads to it"""
+        out, seen, work = [], set(), [node]
+        while work:
+            n = work.pop()
+            for t in self.nodes:
+                if t.kind not in ("test", "loop") or t is n:
+                    continue
+                for s, l in t.succ:
+                    if (s is n or self.postdominates(n, s)) and not all((s2 is n or self.postdominates(n, s2)) for s2, _ in t.succ):
+                        if (t.id, l) not in seen:
+                            seen.add((t.id, l))
+                            out.append((t, l))
+                            if transitive:
+                                work.append(t)
+        return out
+
     # ---------------------------------------------------------------- reachability / paths
     def reachable_from(self, starts, avoid: Set[int] = frozenset(), follow=None) -> Set[int]:
         seen = set()
